@@ -8,6 +8,7 @@ import (
 	"runtime/debug"
 	"sort"
 	"strings"
+	"time"
 
 	"github.com/sourcenetwork/immutable"
 	"github.com/sourcenetwork/lens/host-go/config/model"
@@ -197,8 +198,14 @@ func (w *world) literal(f client.FieldDefinition, seed, related int) (string, bo
 	}
 	switch f.Kind {
 	case client.FieldKind_NILLABLE_STRING:
+		if seed%3 == 0 {
+			return fmt.Sprintf("%q", fmt.Sprintf("v%d", seed)), true
+		}
 		return fmt.Sprintf("%q", strPool[mod(seed, len(strPool))]), true
 	case client.FieldKind_NILLABLE_INT:
+		if seed%3 != 0 {
+			return fmt.Sprint(seed*37 - 1000), true
+		}
 		return fmt.Sprint(intPool[mod(seed, len(intPool))]), true
 	case client.FieldKind_NILLABLE_FLOAT64:
 		return floatPool[mod(seed, len(floatPool))], true
@@ -456,6 +463,20 @@ func (w *world) pickCol(i int) (string, bool) {
 	return w.cols[mod(i, len(w.cols))], true
 }
 
+// pickColWithDocs picks among the collections in which documents were created.
+func (w *world) pickColWithDocs(i int) (string, bool) {
+	var with []string
+	for _, c := range w.cols {
+		if len(w.docs[c]) > 0 {
+			with = append(with, c)
+		}
+	}
+	if len(with) == 0 {
+		return "", false
+	}
+	return with[mod(i, len(with))], true
+}
+
 // defOf returns T's current definition of a collection.
 func (w *world) defOf(name string) (client.CollectionDefinition, bool) {
 	col, err := w.T.DB.GetCollectionByName(w.T.Ctx, name)
@@ -493,8 +514,17 @@ func (w *world) apply(o Op) *hx.Failure {
 		return w.crashAfter(o, w.opDropIndex(o))
 	case opAddView:
 		return w.crashAfter(o, w.opAddView(o))
+	case opRefreshView:
+		return w.crashAfter(o, w.opRefreshViews(o))
+	case opPatchCol:
+		return w.crashAfter(o, w.opPatchCol(o))
 	case opCreate:
 		return w.crashAfter(o, w.opCreate(o))
+	case opCreateP2PDoc:
+		if w.p2p == nil {
+			return nil
+		}
+		return w.opCreate(o)
 	case opUpdate:
 		return w.crashAfter(o, w.opUpdate(o))
 	case opDelete:
@@ -542,6 +572,7 @@ func (w *world) opRestart() *hx.Failure {
 	w.sinceStart = map[string]bool{}
 	if w.p2p != nil {
 		w.p2p.attachR()
+		w.p2p.restartedR()
 		if now := w.R.N.Peer.PeerInfo().ID.String(); now != selfBefore {
 			return hx.Failf("C14/restart/peer-id-changed", "step %d: peer id %s before the restart, %s after it (same private key)", w.step, selfBefore, now)
 		}
@@ -800,7 +831,7 @@ func (w *world) opAddView(o Op) *hx.Failure {
 		typ = "Int"
 	}
 	query := fmt.Sprintf("%s { %s }", name, fld.Name)
-	sdl := fmt.Sprintf("type %s @materialized(if: false) { %s: %s }", vname, fld.Name, typ)
+	sdl := fmt.Sprintf("type %s @materialized(if: %v) { %s: %s }", vname, o.B, fld.Name, typ)
 	rt, f := w.both(o.K, query+" / "+sdl, func(n *hx.Node, _ bool) string {
 		defs, err := n.DB.AddView(n.Ctx, query, sdl, immutable.None[model.Lens]())
 		if err != nil {
@@ -817,11 +848,59 @@ func (w *world) opAddView(o Op) *hx.Failure {
 		w.changed("view")
 		w.allocated("collection")
 		w.info.flag("op:addview-ok")
+		if o.B {
+			w.info.flag("op:addview-materialized")
+		}
 		if w.p2p != nil {
 			w.p2p.mirror(func(n *hx.Node) error {
 				_, err := n.DB.AddView(n.Ctx, query, sdl, immutable.None[model.Lens]())
 				return err
 			})
+		}
+	}
+	return nil
+}
+
+func (w *world) opRefreshViews(o Op) *hx.Failure {
+	if w.views == 0 {
+		return nil
+	}
+	rt, f := w.both(o.K, "all views", func(n *hx.Node, _ bool) string {
+		return errText(n.DB.RefreshViews(n.Ctx, client.CollectionFetchOptions{}))
+	})
+	if f != nil {
+		return f
+	}
+	if !isErr(rt) {
+		w.changed("view")
+		w.info.flag("op:refreshviews-ok")
+	}
+	return nil
+}
+
+// opPatchCol activates or deactivates one collection version directly (PatchCollection on IsActive).
+func (w *world) opPatchCol(o Op) *hx.Failure {
+	name, ok := w.pickCol(o.C)
+	if !ok || len(w.versions[name]) == 0 {
+		return nil
+	}
+	vs := w.versions[name]
+	id := vs[mod(o.V, len(vs))]
+	patch := fmt.Sprintf(`[{"op": "replace", "path": "/%s/IsActive", "value": %v}]`, id, o.B)
+	rt, f := w.both(o.K, name+" "+patch, func(n *hx.Node, _ bool) string {
+		return errText(n.DB.PatchCollection(n.Ctx, patch))
+	})
+	if f != nil {
+		return f
+	}
+	if !isErr(rt) {
+		w.changed("schema-version")
+		w.info.flag("op:patchcol-ok")
+		if !o.B {
+			w.info.flag("op:patchcol-deactivate")
+		}
+		if w.p2p != nil {
+			w.p2p.mirror(func(n *hx.Node) error { return n.DB.PatchCollection(n.Ctx, patch) })
 		}
 	}
 	return nil
@@ -848,7 +927,7 @@ func (w *world) opCreate(o Op) *hx.Failure {
 		if f.Kind.IsObject() || f.Name == "_docID" {
 			continue
 		}
-		if (o.V>>uint(k%5))&1 == 0 && k%3 != o.V%3 {
+		if (o.V>>uint(k%6))&1 == 0 && k%3 != o.V%3 {
 			continue
 		}
 		lit, ok := w.literal(f, o.V+3*k, o.D)
@@ -862,14 +941,23 @@ func (w *world) opCreate(o Op) *hx.Failure {
 	var ids []string
 	rt, f := w.both(o.K, whoName(who)+" "+q, func(n *hx.Node, isR bool) string {
 		r := hx.ExecOn(withID(n.Ctx, who), n.DB, q)
-		if !isR {
-			for _, row := range r.Rows("create_" + name) {
-				if id, ok := row["_docID"].(string); ok {
-					ids = append(ids, id)
-				}
+		var mine []string
+		for _, row := range r.Rows("create_" + name) {
+			if id, ok := row["_docID"].(string); ok {
+				mine = append(mine, id)
 			}
 		}
-		return renderResult(r)
+		if !isR {
+			ids = mine
+		}
+		out := renderResult(r)
+		if o.K == opCreateP2PDoc && len(mine) > 0 {
+			if w.c.Avoid && rec.IsKnown(sigTopicRace) {
+				time.Sleep(25 * time.Millisecond)
+			}
+			out += " / AddP2PDocuments: " + errText(n.N.Peer.AddP2PDocuments(n.Ctx, mine...))
+		}
+		return out
 	})
 	if f != nil {
 		return f
@@ -878,6 +966,14 @@ func (w *world) opCreate(o Op) *hx.Failure {
 		w.docs[name] = append(w.docs[name], ids...)
 		for _, id := range ids {
 			w.owner[id] = who
+			if w.p2p != nil {
+				w.p2p.notePublish(name, id)
+				if o.K == opCreateP2PDoc {
+					w.p2p.noteAdd(id)
+					w.changed("peer-config")
+					w.info.flag("op:createp2pdoc-ok")
+				}
+			}
 		}
 		w.changed("docs")
 		w.info.flag("op:create-ok")
@@ -891,7 +987,7 @@ func (w *world) opCreate(o Op) *hx.Failure {
 }
 
 func (w *world) opUpdate(o Op) *hx.Failure {
-	name, ok := w.pickCol(o.C)
+	name, ok := w.pickColWithDocs(o.C)
 	if !ok || len(w.docs[name]) == 0 {
 		return nil
 	}
@@ -925,12 +1021,15 @@ func (w *world) opUpdate(o Op) *hx.Failure {
 	if !isErr(rt) {
 		w.changed("docs")
 		w.info.flag("op:update-ok")
+		if w.p2p != nil {
+			w.p2p.notePublish(name, id)
+		}
 	}
 	return nil
 }
 
 func (w *world) opDelete(o Op) *hx.Failure {
-	name, ok := w.pickCol(o.C)
+	name, ok := w.pickColWithDocs(o.C)
 	if !ok || len(w.docs[name]) == 0 {
 		return nil
 	}
@@ -946,12 +1045,15 @@ func (w *world) opDelete(o Op) *hx.Failure {
 	if !isErr(rt) {
 		w.changed("docs")
 		w.info.flag("op:delete-ok")
+		if w.p2p != nil {
+			w.p2p.notePublish(name, id)
+		}
 	}
 	return nil
 }
 
 func (w *world) opRel(o Op) *hx.Failure {
-	name, ok := w.pickCol(o.C)
+	name, ok := w.pickColWithDocs(o.C)
 	if !ok || len(w.docs[name]) == 0 {
 		return nil
 	}
